@@ -6,6 +6,7 @@ import (
 	"math"
 	"math/rand"
 	"os"
+	"os/exec"
 	"path/filepath"
 	"strconv"
 	"time"
@@ -27,14 +28,14 @@ func (c20) Meta() fw.Meta {
 	return fw.Meta{
 		ID: "C20",
 		Rule: "case = (layout of 1-4 archives incl. N_fine == ratio and N_fine == ratio+1, maximum in {0,1,7,100,10^6}, fill on/off, generation instant). drivers: (a) the command's own generation path (randomPointsList + updateFileDataWithPointsList through the verif export hook, on a file made by Create, then Sync) at VIRTUAL instants covering every phase class: aligned to each step, +1, step-1, the late phase at which the oldest finer point coincides with the newest coarser interval, instants beyond 2^31; " +
-			"(b) the real generate binary inside a stable wall-clock second, after WAITING for the late phase when the layout has N_fine == ratio (steps 1-5 s), then a second invocation on the same path. " +
+			"(b) the real generate binary inside a stable wall-clock second, launched across a second boundary, or slowed down by strace-injected delays on its page reads (runs that span several seconds must be consistent with ONE generation instant), after WAITING for the late phase when the layout has N_fine == ratio (steps 1-5 s), then a second invocation on the same path. " +
 			"oracle (library read at that instant + the harness' byte parser): header == request; without fill every physical slot is all-zero; with fill every slot of every archive's window (now-ret, now] is non-NaN with 0 <= v <= max*step_i/step_0, and every coarser slot whose ratio finer intervals all lie in the finer archive's window equals their sum (exact integers); existing destination => exit != 0 and bytes unchanged. " +
 			"non-trivial = filled file with >= 2 archives in which at least one fully covered and one partially covered coarser slot were checked; distinct by (layout, instant, max).",
 		Assumptions: []string{
 			"generate's random values are non-negative integers, so sums are exact",
 			"CLI instants are wall-clock (phase steered by waiting); all other phases come from the function-level driver",
 		},
-		Obligations: []string{"function_generations", "cli_generations", "slots_nonnan_checked", "covered_coarser_slots_checked", "partially_covered_coarser_slots", "newest_coarser_slot_fully_covered", "nfine_eq_ratio", "unaligned_instant", "aligned_instant", "nofill_all_zero", "existing_dest_refused", "instant_beyond_2_31"},
+		Obligations: []string{"function_generations", "cli_generations", "slots_nonnan_checked", "covered_coarser_slots_checked", "partially_covered_coarser_slots", "newest_coarser_slot_fully_covered", "nfine_eq_ratio", "unaligned_instant", "aligned_instant", "nofill_all_zero", "existing_dest_refused", "instant_beyond_2_31", "cli_launches_across_second_boundary", "cli_generations_slowed_by_injected_delays"},
 		Workers:     12,
 	}
 }
@@ -94,15 +95,20 @@ func c20Layout(r *rand.Rand, idx int) model.Layout {
 
 // c20Check applies the oracle to a generated file at instant now.
 func c20Check(c *fw.Ctx, path string, l model.Layout, now int64, max int, fill bool, det fw.J) (bool, bool) {
+	return c20CheckR(c, path, l, now, max, fill, det, func(key string, d fw.J, msg string) { c.Violationf(key, d, "%s", msg) })
+}
+
+// c20CheckR is c20Check with the violation sink made explicit (a dry run collects instead of recording).
+func c20CheckR(c *fw.Ctx, path string, l model.Layout, now int64, max int, fill bool, det fw.J, report func(key string, d fw.J, msg string)) (bool, bool) {
 	img := readFileOrNil(path)
 	want := model.EncodeHeader(l)
 	if int64(len(img)) != l.FileSize() || !bytes.Equal(img[:len(want)], want) {
-		c.Violationf("generate-header", det, "generated file does not carry the requested layout/method/xFilesFactor (len %d want %d)", len(img), l.FileSize())
+		report("generate-header", det, fmt.Sprintf("generated file does not carry the requested layout/method/xFilesFactor (len %d want %d)", len(img), l.FileSize()))
 		return false, false
 	}
 	_, raw, err := model.ParseFile(img)
 	if err != nil {
-		c.Violationf("generate-unparsable", det, "generated file does not parse: %v", err)
+		report("generate-unparsable", det, fmt.Sprintf("generated file does not parse: %v", err))
 		return false, false
 	}
 	if !fill {
@@ -110,7 +116,7 @@ func c20Check(c *fw.Ctx, path string, l model.Layout, now int64, max int, fill b
 			for j, s := range raw[ai] {
 				if s.T != 0 || s.Bits != 0 {
 					det["archive"], det["slot"] = ai, j
-					c.Violationf("nofill-not-empty", det, "generate -fill=false left archive %d slot %d non-empty: %v", ai, j, s)
+					report("nofill-not-empty", det, fmt.Sprintf("generate -fill=false left archive %d slot %d non-empty: %v", ai, j, s))
 					return false, false
 				}
 			}
@@ -120,7 +126,7 @@ func c20Check(c *fw.Ctx, path string, l model.Layout, now int64, max int, fill b
 	}
 	tsl, _, err := fetchArchives(path, -1, 0, now, now)
 	if err != nil {
-		c.Violationf("generate-unreadable", det, "generated file unreadable: %v", err)
+		report("generate-unreadable", det, fmt.Sprintf("generated file unreadable: %v", err))
 		return false, false
 	}
 	vals := make([]map[int64]float64, len(l.Archs))
@@ -129,7 +135,7 @@ func c20Check(c *fw.Ctx, path string, l model.Layout, now int64, max int, fill b
 		vals[ai] = map[int64]float64{}
 		bound := float64(max) * float64(a.Step) / float64(l.Archs[0].Step)
 		if ts == nil || int64(len(ts.Values())) != int64(a.Points) {
-			c.Violationf("generate-window-shape", det, "archive %d: whole-retention fetch returned %v values, want %d", ai, ts, a.Points)
+			report("generate-window-shape", det, fmt.Sprintf("archive %d: whole-retention fetch returned %v values, want %d", ai, ts, a.Points))
 			return false, false
 		}
 		for j, v := range ts.Values() {
@@ -138,12 +144,12 @@ func c20Check(c *fw.Ctx, path string, l model.Layout, now int64, max int, fill b
 			f := float64(v)
 			if math.IsNaN(f) {
 				det["archive"], det["t"] = ai, t
-				c.Violationf("fill-left-empty-slot", det, "generate -fill left archive %d slot %d (inside the retention at the generation time %d) empty", ai, t, now)
+				report("fill-left-empty-slot", det, fmt.Sprintf("generate -fill left archive %d slot %d (inside the retention at the generation time %d) empty", ai, t, now))
 				return false, false
 			}
 			if f < 0 || f > bound || f != math.Trunc(f) {
 				det["archive"], det["t"], det["value"], det["bound"] = ai, t, f, bound
-				c.Violationf("fill-value-out-of-range", det, "archive %d slot %d holds %v, must be an integer within [0, %v]", ai, t, f, bound)
+				report("fill-value-out-of-range", det, fmt.Sprintf("archive %d slot %d holds %v, must be an integer within [0, %v]", ai, t, f, bound))
 				return false, false
 			}
 			vals[ai][t] = f
@@ -177,7 +183,7 @@ func c20Check(c *fw.Ctx, path string, l model.Layout, now int64, max int, fill b
 			}
 			if v != sum {
 				det["archive"], det["t"], det["value"], det["finer_sum"] = ai, t, v, sum
-				c.Violationf("coarser-slot-not-sum", det, "archive %d slot %d holds %v but its %d finer slots (all retained) sum to %v", ai, t, v, ratio, sum)
+				report("coarser-slot-not-sum", det, fmt.Sprintf("archive %d slot %d holds %v but its %d finer slots (all retained) sum to %v", ai, t, v, ratio, sum))
 				return false, false
 			}
 		}
@@ -261,47 +267,90 @@ func (c20) Run(c *fw.Ctx) {
 	if c.Index%2 == 0 {
 		fill := c.Index%6 != 4
 		path := filepath.Join(dir, "cli-gen.wsp")
+		slowed := c.Index%8 == 6
+		if slowed {
+			// a multi-page layout generated under strace with a delay injected into every page read (preadv): the page
+			// reads of the later archives happen seconds after the command took its generation instant
+			l = model.Layout{Archs: []model.Arch{{Step: 1, Points: uint32(600 + r.Intn(200))}, {Step: 5, Points: uint32(350 + r.Intn(100))}, {Step: 30, Points: uint32(300 + r.Intn(50))}}, Method: 2, Xff: 0}
+			fill = true
+			if _, err := exec.LookPath("strace"); err == nil {
+				c.Env.State["cli_wrapper"] = []string{"strace", "-f", "-o", "/dev/null", "-e", "trace=preadv", "-e", "inject=preadv:delay_enter=350000"}
+				defer delete(c.Env.State, "cli_wrapper")
+				c.Count("cli_generations_slowed_by_injected_delays", 1)
+			}
+		}
 		args := []string{"generate", "-dest", path, "-agg-method", model.MethodNames[l.Method], "-x-files-factor", strconv.FormatFloat(float64(l.Xff), 'g', -1, 32),
 			"-retentions", l.RetentionString(), "-max", strconv.Itoa(max), fmt.Sprintf("-fill=%v", fill)}
 		// wait for the late phase of the first archive pair with N_fine == ratio (steps are 1-5 s)
 		var res cliResult
-		ok := false
-		for try := 0; try < 6 && !ok; try++ {
-			os.Remove(path)
-			if len(l.Archs) > 1 && l.Archs[0].Points == l.Archs[1].Step/l.Archs[0].Step && l.Archs[1].Step <= 30 {
-				cs, fs := int64(l.Archs[1].Step), int64(l.Archs[0].Step)
-				for time.Now().Unix()%cs < cs-fs {
-					time.Sleep(50 * time.Millisecond)
+		os.Remove(path)
+		if len(l.Archs) > 1 && l.Archs[0].Points == l.Archs[1].Step/l.Archs[0].Step && l.Archs[1].Step <= 30 {
+			cs, fs := int64(l.Archs[1].Step), int64(l.Archs[0].Step)
+			for time.Now().Unix()%cs < cs-fs {
+				time.Sleep(50 * time.Millisecond)
+			}
+		}
+		lateLaunch := c.Index%4 == 2
+		ns := time.Now().Nanosecond()
+		if lateLaunch {
+			// start the process so that its run straddles a second boundary: the file must still be consistent with
+			// ONE generation instant
+			target := 985e6 + r.Intn(12e6)
+			if ns > target {
+				time.Sleep(time.Duration(1e9 - ns))
+				ns = 0
+			}
+			time.Sleep(time.Duration(target - ns))
+			c.Count("cli_launches_across_second_boundary", 1)
+		} else if ns > 300e6 {
+			time.Sleep(time.Duration(1e9-ns) + 5*time.Millisecond)
+		}
+		res = runCLI(c, args...)
+		det := fw.J{"layout": l, "instant": res.T0, "max": max, "fill": fill, "driver": "cli", "run": res.brief()}
+		straddled := false
+		if res.T0 != res.T1 && res.Exit == 0 && !cliPanicked(res) {
+			// the instant is T0..T1: the file must satisfy the oracle for at least one candidate
+			var firstKey, firstMsg string
+			okAny := false
+			for cand := res.T0; cand <= res.T1; cand++ {
+				problem := ""
+				c20CheckR(c, path, l, cand, max, fill, fw.J{}, func(key string, d fw.J, msg string) {
+					if problem == "" {
+						problem = key + ": " + msg
+						if firstKey == "" {
+							firstKey, firstMsg = key, msg
+						}
+					}
+				})
+				if problem == "" {
+					okAny = true
+					break
 				}
 			}
-			ns := time.Now().Nanosecond()
-			if ns > 300e6 {
-				time.Sleep(time.Duration(1e9-ns) + 5*time.Millisecond)
+			c.Count("cli_generations_straddling_a_second", 1)
+			if !okAny {
+				det["candidates"] = []int64{res.T0, res.T1}
+				c.Violationf(firstKey, det, "generate ran across a second boundary (%d..%d) and the file is consistent with NO generation instant in that range: %s", res.T0, res.T1, firstMsg)
+				return
 			}
-			res = runCLI(c, args...)
-			ok = res.T0 == res.T1
-			if !ok {
-				c.Count("discarded_unstable_second", 1)
-			}
+			c.Count("cli_generations", 1)
+			straddled = true
 		}
-		if !ok {
-			c.Count("skipped_no_stable_second", 1)
-			return
-		}
-		det := fw.J{"layout": l, "instant": res.T0, "max": max, "fill": fill, "driver": "cli", "run": res.brief()}
-		if cliPanicked(res) {
+		if straddled {
+			// already judged over the candidate instants
+		} else if cliPanicked(res) {
 			c.Violationf("panic", det, "generate panicked")
 			return
-		}
-		if res.Exit != 0 {
+		} else if res.Exit != 0 {
 			c.Violationf("generate-failed", det, "generate exited %d: %s", res.Exit, truncStr(res.Stderr, 300))
 			return
-		}
-		c.Count("cli_generations", 1)
-		f, p := c20Check(c, path, l, res.T0, max, fill, det)
-		sawFull, sawPartial = sawFull || f, sawPartial || p
-		if c.Violated() {
-			return
+		} else {
+			c.Count("cli_generations", 1)
+			f, p := c20Check(c, path, l, res.T0, max, fill, det)
+			sawFull, sawPartial = sawFull || f, sawPartial || p
+			if c.Violated() {
+				return
+			}
 		}
 		before := readFileOrNil(path)
 		res2 := runCLI(c, args...)
